@@ -125,6 +125,52 @@ struct Family {
    }
 };
 
+// The algebra on the whole coordinate space (both set types are as wide as a pointer, and the interface keeps the coordinates
+// beyond the basis open for extensions): membership of coordinate i is judged through the algebra's own atoms,
+// has(x, i) := (x & atom_i) == atom_i, and union / intersection / symmetric difference / implies / the compound assignments must
+// act coordinate by coordinate on all 64 of them - for the basis coordinates and for the ones above alike.
+template<class Set> void wide_algebra(const char* tag, Rng& rng, long long pairs)
+{
+   constexpr int W = int(sizeof(std::uintptr_t) * 8);
+   auto atom = [](int i) { return Set(std::uintptr_t(1) << i); };
+   auto has = [&](Set x, int i) { return (x & atom(i)) == atom(i); };
+   auto fail = [&](const char* op, std::uintptr_t a, std::uintptr_t b) { ctx().viol(std::string(tag) + ":" + op + ":whole-coordinate-space", std::string(op) + " does not act coordinate by coordinate on sets that carry coordinates beyond the basis", J().u("a", a).u("b", b).str()); };
+   for (int i = 0; i < W; ++i) for (int j = 0; j < W; ++j) {
+      if (implies(atom(i), atom(j)) != (i == j)) fail("implies", std::uintptr_t(1) << i, std::uintptr_t(1) << j);
+      if (!implies(atom(i) | atom(j), atom(j)) || !implies(atom(i) | atom(j), atom(i))) fail("implies", (std::uintptr_t(1) << i) | (std::uintptr_t(1) << j), std::uintptr_t(1) << j);
+      if (i != j && implies(Set(~(std::uintptr_t(1) << j)), atom(j))) fail("implies", ~(std::uintptr_t(1) << j), std::uintptr_t(1) << j);
+      ctx().count(std::string(tag) + "_atom_pairs");
+   }
+   for (long long n = 0; n < pairs; ++n) {
+      std::uintptr_t a = std::uintptr_t(rng.next()), b = std::uintptr_t(rng.next());
+      switch (rng.below(6)) {
+      case 0: a &= std::uintptr_t(rng.next()); b &= std::uintptr_t(rng.next()) & std::uintptr_t(rng.next()); break;          // sparse
+      case 1: b = a & std::uintptr_t(rng.next()); break;                                                                       // b within a
+      case 2: b = (a & std::uintptr_t(rng.next())) | (std::uintptr_t(1) << rng.below(W)); break;                              // b within a, plus one coordinate
+      case 3: a &= 0x3ffff; b = (a & std::uintptr_t(rng.next())) | (std::uintptr_t(1) << (18 + rng.below(W - 18))); break;     // a in the basis, b adds one coordinate above it
+      case 4: a |= ~std::uintptr_t(0) << 32; b = a & ~(std::uintptr_t(1) << (32 + rng.below(W - 32))); std::swap(a, b); break; // they differ in one high coordinate only
+      default: break;
+      }
+      const Set A = Set(a), B = Set(b), U = A | B, I = A & B, X = A ^ B;
+      bool want_implies = true;
+      for (int i = 0; i < W; ++i) {
+         const bool ha = has(A, i), hb = has(B, i);
+         if (ha != bool((a >> i) & 1) || hb != bool((b >> i) & 1)) fail("atom-membership", a, b);
+         if (has(U, i) != (ha || hb)) fail("union", a, b);
+         if (has(I, i) != (ha && hb)) fail("intersection", a, b);
+         if (has(X, i) != (ha != hb)) fail("symmetric-difference", a, b);
+         if (hb && !ha) want_implies = false;
+      }
+      if (implies(A, B) != want_implies) fail("implies", a, b);
+      if (!implies(U, A) || !implies(U, B) || !implies(A, I) || !implies(B, I)) fail("implies", a, b);
+      Set t = A; t |= B; if (t != U) fail("or-assign", a, b);
+      t = A; t &= B; if (t != I) fail("and-assign", a, b);
+      t = A; t ^= B; if (t != X) fail("xor-assign", a, b);
+      ctx().count(std::string(tag) + "_pairs_over_the_whole_coordinate_space");
+      ctx().eval(hash_mix(a, hash_mix(b, 64)), true);
+   }
+}
+
 // The same mapping asked during static initialisation, before any initialiser of the library's own translation units can have
 // run (a client's namespace-scope object that uses a Lexicon in its constructor; init_priority 101 is the earliest a program
 // may ask for).  Only plain arrays are filled here; the answers are compared in body() with those obtained inside main().
@@ -288,6 +334,8 @@ static void body(Ctx& C)
          if (i == 7) C.sample(J().s("kind", "random-pair").u("a_mask", a).u("b_mask", b).str());
       }
    }
+   {  Rng wr(C.seed ^ 0x57494445); wide_algebra<Specifiers>("specifiers", wr, C.thorough ? 400000 : 20000); wide_algebra<Qualifiers>("qualifiers", wr, C.thorough ? 400000 : 20000); }
+   C.need("specifiers_pairs_over_the_whole_coordinate_space"); C.need("qualifiers_pairs_over_the_whole_coordinate_space"); C.need("specifiers_atom_pairs");
    C.sample(J().s("kind", "subset").u("mask", 0x2a5).raw("names", jarr(basic_specifier_words, basic_specifier_words + 18, [](std::u8string_view w) { return jstr(w); })).str());
    C.need("specifiers_subsets_decomposed"); C.need("qualifiers_subsets_decomposed"); C.need("specifiers_binary_pairs");
    C.need("named_accessors_checked"); C.need("questions_asked_during_static_initialisation");
